@@ -26,6 +26,9 @@ struct SchedParams {
 	int starve_task = -1;        // task id that is not scheduled during the starve window
 	uint64_t starve_from_us = 0, starve_for_us = 0;
 	uint32_t jitter_us = 0;      // usleep(d) sleeps d + U[0,jitter]
+	uint32_t preempt_permille = 0;   // chance that a task is descheduled at a lock / unlock point ...
+	uint32_t preempt_max_us = 0;     // ... for up to this long (simulated time passes: the "slow thread" fault)
+	uint64_t preempt_from_us = 0;    // not before this simulated time
 	uint32_t grid_us = 1;        // >1: every wake-up and every frame start is rounded up to a multiple of this (see grid_round)
 	uint64_t epoch0_us = 1700000000ULL * 1000000ULL;
 	uint64_t max_steps = 3000000;
@@ -84,6 +87,7 @@ struct RunStats {
 	uint64_t max_tasks = 0;
 	uint64_t overlap3 = 0;          // times >=3 tasks were simultaneously waiting-for/holding the same lock
 	uint64_t starve_applied = 0;
+	uint64_t preempt_injected = 0;
 	uint64_t pct_changes = 0;
 };
 
